@@ -4,7 +4,9 @@
 From Coq Require Import ZArith List Bool Reals Lia Lra.
 From FT.lib Require Import Num Arr ArrLemmas Lower NumArr.
 From FT.gen Require Import Common Interp2d Interp3d Vinterp2d Vinterp3d FteikCommon Fteik2d Fteik3d Ray2d Ray3d.
+From FT.model Require Import Api.
 From FT.proofs Require Import SSR InterpR Interp3R.
+From FT.proofs Require ApiGenEq.
 Import ListNotations.
 Open Scope R_scope.
 
@@ -212,6 +214,480 @@ Theorem C14_interp3d_axis_swap_yz :
        u_interp3d_v x y z v xq yq zq fval = u_interp3d_v x z y vt xq zq yq fval.
 Proof. exact @Interp3R.interp3d_axis_swap_yz. Qed.
 
+(* API layer, extracted from _base.py on every run (gen/ApiGen.v): the Z axis handed to the interpolator is origin[0] + gridsize[0] * k for k < shape[0], i.e. the hand model's node axis (every numeric instance) *)
+Theorem C14_grid_axes_are_origin_plus_index_times_spacing_2d_z :
+  forall (T : Type) (N : Num T) (origin gridsize : list T) (shape : list Z),
+       ApiGen.axis_2d_zaxis origin gridsize shape =
+       axis_nodes (nth 0 origin (nofZ 0)) (nth 0 gridsize (nofZ 0)) (nth 0 shape 0%Z).
+Proof. exact @ApiGenEq.gen_axis_2d_zaxis_eq_gen. Qed.
+
+(* X axis: component 1 *)
+Theorem C14_grid_axes_2d_x :
+  forall (T : Type) (N : Num T) (origin gridsize : list T) (shape : list Z),
+       ApiGen.axis_2d_xaxis origin gridsize shape =
+       axis_nodes (nth 1 origin (nofZ 0)) (nth 1 gridsize (nofZ 0)) (nth 1 shape 0%Z).
+Proof. exact @ApiGenEq.gen_axis_2d_xaxis_eq_gen. Qed.
+
+(* 3D, component 0 *)
+Theorem C14_grid_axes_3d_z :
+  forall (T : Type) (N : Num T) (origin gridsize : list T) (shape : list Z),
+       ApiGen.axis_3d_zaxis origin gridsize shape =
+       axis_nodes (nth 0 origin (nofZ 0)) (nth 0 gridsize (nofZ 0)) (nth 0 shape 0%Z).
+Proof. exact @ApiGenEq.gen_axis_3d_zaxis_eq_gen. Qed.
+
+(* 3D, component 1 *)
+Theorem C14_grid_axes_3d_x :
+  forall (T : Type) (N : Num T) (origin gridsize : list T) (shape : list Z),
+       ApiGen.axis_3d_xaxis origin gridsize shape =
+       axis_nodes (nth 1 origin (nofZ 0)) (nth 1 gridsize (nofZ 0)) (nth 1 shape 0%Z).
+Proof. exact @ApiGenEq.gen_axis_3d_xaxis_eq_gen. Qed.
+
+(* 3D, component 2 *)
+Theorem C14_grid_axes_3d_y :
+  forall (T : Type) (N : Num T) (origin gridsize : list T) (shape : list Z),
+       ApiGen.axis_3d_yaxis origin gridsize shape =
+       axis_nodes (nth 2 origin (nofZ 0)) (nth 2 gridsize (nofZ 0)) (nth 2 shape 0%Z).
+Proof. exact @ApiGenEq.gen_axis_3d_yaxis_eq_gen. Qed.
+
+(* the axis properties read the attributes stored by the constructor and nothing else (no cached copy): extracted shape of BaseGrid.__init__ and of the properties *)
+Theorem C14_grid_axes_read_stored_attributes :
+  ApiGen.basegrid_init =
+       [(String.String (Ascii.Ascii true true true true true false true false)
+           (String.String (Ascii.Ascii true true true false false true true false)
+              (String.String (Ascii.Ascii false true false false true true true false)
+                 (String.String (Ascii.Ascii true false false true false true true false)
+                    (String.String (Ascii.Ascii false false true false false true true false) String.EmptyString)))),
+         String.String (Ascii.Ascii false true true true false true true false)
+           (String.String (Ascii.Ascii false false false false true true true false)
+              (String.String (Ascii.Ascii false true true true false true false false)
+                 (String.String (Ascii.Ascii true false false false false true true false)
+                    (String.String (Ascii.Ascii true true false false true true true false)
+                       (String.String (Ascii.Ascii true false false false false true true false)
+                          (String.String (Ascii.Ascii false true false false true true true false)
+                             (String.String (Ascii.Ascii false true false false true true true false)
+                                (String.String (Ascii.Ascii true false false false false true true false)
+                                   (String.String (Ascii.Ascii true false false true true true true false)
+                                      (String.String (Ascii.Ascii false false false true false true false false)
+                                         (String.String (Ascii.Ascii true true true false false true true false)
+                                            (String.String (Ascii.Ascii false true false false true true true false)
+                                               (String.String (Ascii.Ascii true false false true false true true false)
+                                                  (String.String
+                                                     (Ascii.Ascii false false true false false true true false)
+                                                     (String.String
+                                                        (Ascii.Ascii false false true true false true false false)
+                                                        (String.String
+                                                           (Ascii.Ascii false false false false false true false false)
+                                                           (String.String
+                                                              (Ascii.Ascii false false true false false true true false)
+                                                              (String.String
+                                                                 (Ascii.Ascii false false true false true true true
+                                                                    false)
+                                                                 (String.String
+                                                                    (Ascii.Ascii true false false true true true true
+                                                                       false)
+                                                                    (String.String
+                                                                       (Ascii.Ascii false false false false true true
+                                                                          true false)
+                                                                       (String.String
+                                                                          (Ascii.Ascii true false true false false true
+                                                                             true false)
+                                                                          (String.String
+                                                                             (Ascii.Ascii true false true true true
+                                                                                true false false)
+                                                                             (String.String
+                                                                                (Ascii.Ascii false true true true false
+                                                                                   true true false)
+                                                                                (String.String
+                                                                                   (Ascii.Ascii false false false false
+                                                                                      true true true false)
+                                                                                   (String.String
+                                                                                      (Ascii.Ascii false true true true
+                                                                                         false true false false)
+                                                                                      (String.String
+                                                                                         (Ascii.Ascii false true true
+                                                                                          false false true true false)
+                                                                                         (String.String
+                                                                                          (Ascii.Ascii false false true
+                                                                                          true false true true false)
+                                                                                          (String.String
+                                                                                          (Ascii.Ascii true true true
+                                                                                          true false true true false)
+                                                                                          (String.String
+                                                                                          (Ascii.Ascii true false false
+                                                                                          false false true true false)
+                                                                                          (String.String
+                                                                                          (Ascii.Ascii false false true
+                                                                                          false true true true false)
+                                                                                          (String.String
+                                                                                          (Ascii.Ascii false true true
+                                                                                          false true true false false)
+                                                                                          (String.String
+                                                                                          (Ascii.Ascii false false true
+                                                                                          false true true false false)
+                                                                                          (String.String
+                                                                                          (Ascii.Ascii true false false
+                                                                                          true false true false false)
+                                                                                          String.EmptyString))))))))))))))))))))))))))))))))));
+        (String.String (Ascii.Ascii true true true true true false true false)
+           (String.String (Ascii.Ascii true true true false false true true false)
+              (String.String (Ascii.Ascii false true false false true true true false)
+                 (String.String (Ascii.Ascii true false false true false true true false)
+                    (String.String (Ascii.Ascii false false true false false true true false)
+                       (String.String (Ascii.Ascii true true false false true true true false)
+                          (String.String (Ascii.Ascii true false false true false true true false)
+                             (String.String (Ascii.Ascii false true false true true true true false)
+                                (String.String (Ascii.Ascii true false true false false true true false)
+                                   String.EmptyString)))))))),
+         String.String (Ascii.Ascii false false true false true true true false)
+           (String.String (Ascii.Ascii true false true false true true true false)
+              (String.String (Ascii.Ascii false false false false true true true false)
+                 (String.String (Ascii.Ascii false false true true false true true false)
+                    (String.String (Ascii.Ascii true false true false false true true false)
+                       (String.String (Ascii.Ascii false false false true false true false false)
+                          (String.String (Ascii.Ascii false false false true false true false false)
+                             (String.String (Ascii.Ascii false true true false false true true false)
+                                (String.String (Ascii.Ascii false false true true false true true false)
+                                   (String.String (Ascii.Ascii true true true true false true true false)
+                                      (String.String (Ascii.Ascii true false false false false true true false)
+                                         (String.String (Ascii.Ascii false false true false true true true false)
+                                            (String.String (Ascii.Ascii false false false true false true false false)
+                                               (String.String (Ascii.Ascii false false false true true true true false)
+                                                  (String.String
+                                                     (Ascii.Ascii true false false true false true false false)
+                                                     (String.String
+                                                        (Ascii.Ascii false false false false false true false false)
+                                                        (String.String
+                                                           (Ascii.Ascii false true true false false true true false)
+                                                           (String.String
+                                                              (Ascii.Ascii true true true true false true true false)
+                                                              (String.String
+                                                                 (Ascii.Ascii false true false false true true true
+                                                                    false)
+                                                                 (String.String
+                                                                    (Ascii.Ascii false false false false false true
+                                                                       false false)
+                                                                    (String.String
+                                                                       (Ascii.Ascii false false false true true true
+                                                                          true false)
+                                                                       (String.String
+                                                                          (Ascii.Ascii false false false false false
+                                                                             true false false)
+                                                                          (String.String
+                                                                             (Ascii.Ascii true false false true false
+                                                                                true true false)
+                                                                             (String.String
+                                                                                (Ascii.Ascii false true true true false
+                                                                                   true true false)
+                                                                                (String.String
+                                                                                   (Ascii.Ascii false false false false
+                                                                                      false true false false)
+                                                                                   (String.String
+                                                                                      (Ascii.Ascii true true true false
+                                                                                         false true true false)
+                                                                                      (String.String
+                                                                                         (Ascii.Ascii false true false
+                                                                                          false true true true false)
+                                                                                         (String.String
+                                                                                          (Ascii.Ascii true false false
+                                                                                          true false true true false)
+                                                                                          (String.String
+                                                                                          (Ascii.Ascii false false true
+                                                                                          false false true true false)
+                                                                                          (String.String
+                                                                                          (Ascii.Ascii true true false
+                                                                                          false true true true false)
+                                                                                          (String.String
+                                                                                          (Ascii.Ascii true false false
+                                                                                          true false true true false)
+                                                                                          (String.String
+                                                                                          (Ascii.Ascii false true false
+                                                                                          true true true true false)
+                                                                                          (String.String
+                                                                                          (Ascii.Ascii true false true
+                                                                                          false false true true false)
+                                                                                          (String.String
+                                                                                          (Ascii.Ascii true false false
+                                                                                          true false true false false)
+                                                                                          (String.String
+                                                                                          (Ascii.Ascii true false false
+                                                                                          true false true false false)
+                                                                                          String.EmptyString)))))))))))))))))))))))))))))))))));
+        (String.String (Ascii.Ascii true true true true true false true false)
+           (String.String (Ascii.Ascii true true true true false true true false)
+              (String.String (Ascii.Ascii false true false false true true true false)
+                 (String.String (Ascii.Ascii true false false true false true true false)
+                    (String.String (Ascii.Ascii true true true false false true true false)
+                       (String.String (Ascii.Ascii true false false true false true true false)
+                          (String.String (Ascii.Ascii false true true true false true true false) String.EmptyString)))))),
+         String.String (Ascii.Ascii false true true true false true true false)
+           (String.String (Ascii.Ascii false false false false true true true false)
+              (String.String (Ascii.Ascii false true true true false true false false)
+                 (String.String (Ascii.Ascii true false false false false true true false)
+                    (String.String (Ascii.Ascii true true false false true true true false)
+                       (String.String (Ascii.Ascii true false false false false true true false)
+                          (String.String (Ascii.Ascii false true false false true true true false)
+                             (String.String (Ascii.Ascii false true false false true true true false)
+                                (String.String (Ascii.Ascii true false false false false true true false)
+                                   (String.String (Ascii.Ascii true false false true true true true false)
+                                      (String.String (Ascii.Ascii false false false true false true false false)
+                                         (String.String (Ascii.Ascii true true true true false true true false)
+                                            (String.String (Ascii.Ascii false true false false true true true false)
+                                               (String.String (Ascii.Ascii true false false true false true true false)
+                                                  (String.String
+                                                     (Ascii.Ascii true true true false false true true false)
+                                                     (String.String
+                                                        (Ascii.Ascii true false false true false true true false)
+                                                        (String.String
+                                                           (Ascii.Ascii false true true true false true true false)
+                                                           (String.String
+                                                              (Ascii.Ascii false false true true false true false false)
+                                                              (String.String
+                                                                 (Ascii.Ascii false false false false false true false
+                                                                    false)
+                                                                 (String.String
+                                                                    (Ascii.Ascii false false true false false true true
+                                                                       false)
+                                                                    (String.String
+                                                                       (Ascii.Ascii false false true false true true
+                                                                          true false)
+                                                                       (String.String
+                                                                          (Ascii.Ascii true false false true true true
+                                                                             true false)
+                                                                          (String.String
+                                                                             (Ascii.Ascii false false false false true
+                                                                                true true false)
+                                                                             (String.String
+                                                                                (Ascii.Ascii true false true false
+                                                                                   false true true false)
+                                                                                (String.String
+                                                                                   (Ascii.Ascii true false true true
+                                                                                      true true false false)
+                                                                                   (String.String
+                                                                                      (Ascii.Ascii false true true true
+                                                                                         false true true false)
+                                                                                      (String.String
+                                                                                         (Ascii.Ascii false false false
+                                                                                          false true true true false)
+                                                                                         (String.String
+                                                                                          (Ascii.Ascii false true true
+                                                                                          true false true false false)
+                                                                                          (String.String
+                                                                                          (Ascii.Ascii false true true
+                                                                                          false false true true false)
+                                                                                          (String.String
+                                                                                          (Ascii.Ascii false false true
+                                                                                          true false true true false)
+                                                                                          (String.String
+                                                                                          (Ascii.Ascii true true true
+                                                                                          true false true true false)
+                                                                                          (String.String
+                                                                                          (Ascii.Ascii true false false
+                                                                                          false false true true false)
+                                                                                          (String.String
+                                                                                          (Ascii.Ascii false false true
+                                                                                          false true true true false)
+                                                                                          (String.String
+                                                                                          (Ascii.Ascii false true true
+                                                                                          false true true false false)
+                                                                                          (String.String
+                                                                                          (Ascii.Ascii false false true
+                                                                                          false true true false false)
+                                                                                          (String.String
+                                                                                          (Ascii.Ascii true false false
+                                                                                          true false true false false)
+                                                                                          String.EmptyString))))))))))))))))))))))))))))))))))))] /\
+       ApiGen.basegrid_props =
+       [(String.String (Ascii.Ascii true true true false false true true false)
+           (String.String (Ascii.Ascii false true false false true true true false)
+              (String.String (Ascii.Ascii true false false true false true true false)
+                 (String.String (Ascii.Ascii false false true false false true true false) String.EmptyString))),
+         String.String (Ascii.Ascii true true false false true true true false)
+           (String.String (Ascii.Ascii true false true false false true true false)
+              (String.String (Ascii.Ascii false false true true false true true false)
+                 (String.String (Ascii.Ascii false true true false false true true false)
+                    (String.String (Ascii.Ascii false true true true false true false false)
+                       (String.String (Ascii.Ascii true true true true true false true false)
+                          (String.String (Ascii.Ascii true true true false false true true false)
+                             (String.String (Ascii.Ascii false true false false true true true false)
+                                (String.String (Ascii.Ascii true false false true false true true false)
+                                   (String.String (Ascii.Ascii false false true false false true true false)
+                                      String.EmptyString))))))))));
+        (String.String (Ascii.Ascii true true true false false true true false)
+           (String.String (Ascii.Ascii false true false false true true true false)
+              (String.String (Ascii.Ascii true false false true false true true false)
+                 (String.String (Ascii.Ascii false false true false false true true false)
+                    (String.String (Ascii.Ascii true true false false true true true false)
+                       (String.String (Ascii.Ascii true false false true false true true false)
+                          (String.String (Ascii.Ascii false true false true true true true false)
+                             (String.String (Ascii.Ascii true false true false false true true false)
+                                String.EmptyString))))))),
+         String.String (Ascii.Ascii true true false false true true true false)
+           (String.String (Ascii.Ascii true false true false false true true false)
+              (String.String (Ascii.Ascii false false true true false true true false)
+                 (String.String (Ascii.Ascii false true true false false true true false)
+                    (String.String (Ascii.Ascii false true true true false true false false)
+                       (String.String (Ascii.Ascii true true true true true false true false)
+                          (String.String (Ascii.Ascii true true true false false true true false)
+                             (String.String (Ascii.Ascii false true false false true true true false)
+                                (String.String (Ascii.Ascii true false false true false true true false)
+                                   (String.String (Ascii.Ascii false false true false false true true false)
+                                      (String.String (Ascii.Ascii true true false false true true true false)
+                                         (String.String (Ascii.Ascii true false false true false true true false)
+                                            (String.String (Ascii.Ascii false true false true true true true false)
+                                               (String.String (Ascii.Ascii true false true false false true true false)
+                                                  String.EmptyString))))))))))))));
+        (String.String (Ascii.Ascii true true true true false true true false)
+           (String.String (Ascii.Ascii false true false false true true true false)
+              (String.String (Ascii.Ascii true false false true false true true false)
+                 (String.String (Ascii.Ascii true true true false false true true false)
+                    (String.String (Ascii.Ascii true false false true false true true false)
+                       (String.String (Ascii.Ascii false true true true false true true false) String.EmptyString))))),
+         String.String (Ascii.Ascii true true false false true true true false)
+           (String.String (Ascii.Ascii true false true false false true true false)
+              (String.String (Ascii.Ascii false false true true false true true false)
+                 (String.String (Ascii.Ascii false true true false false true true false)
+                    (String.String (Ascii.Ascii false true true true false true false false)
+                       (String.String (Ascii.Ascii true true true true true false true false)
+                          (String.String (Ascii.Ascii true true true true false true true false)
+                             (String.String (Ascii.Ascii false true false false true true true false)
+                                (String.String (Ascii.Ascii true false false true false true true false)
+                                   (String.String (Ascii.Ascii true true true false false true true false)
+                                      (String.String (Ascii.Ascii true false false true false true true false)
+                                         (String.String (Ascii.Ascii false true true true false true true false)
+                                            String.EmptyString))))))))))));
+        (String.String (Ascii.Ascii true true false false true true true false)
+           (String.String (Ascii.Ascii false false false true false true true false)
+              (String.String (Ascii.Ascii true false false false false true true false)
+                 (String.String (Ascii.Ascii false false false false true true true false)
+                    (String.String (Ascii.Ascii true false true false false true true false) String.EmptyString)))),
+         String.String (Ascii.Ascii true true false false true true true false)
+           (String.String (Ascii.Ascii true false true false false true true false)
+              (String.String (Ascii.Ascii false false true true false true true false)
+                 (String.String (Ascii.Ascii false true true false false true true false)
+                    (String.String (Ascii.Ascii false true true true false true false false)
+                       (String.String (Ascii.Ascii true true true true true false true false)
+                          (String.String (Ascii.Ascii true true true false false true true false)
+                             (String.String (Ascii.Ascii false true false false true true true false)
+                                (String.String (Ascii.Ascii true false false true false true true false)
+                                   (String.String (Ascii.Ascii false false true false false true true false)
+                                      (String.String (Ascii.Ascii false true true true false true false false)
+                                         (String.String (Ascii.Ascii true true false false true true true false)
+                                            (String.String (Ascii.Ascii false false false true false true true false)
+                                               (String.String
+                                                  (Ascii.Ascii true false false false false true true false)
+                                                  (String.String
+                                                     (Ascii.Ascii false false false false true true true false)
+                                                     (String.String
+                                                        (Ascii.Ascii true false true false false true true false)
+                                                        String.EmptyString))))))))))))))))].
+Proof. exact @ApiGenEq.gen_basegrid_storage. Qed.
+
+(* which component each axis property uses *)
+Theorem C14_grid_axis_component_index :
+  ApiGen.axis_index_2d =
+       [(String.String (Ascii.Ascii false true false false false false true false)
+           (String.String (Ascii.Ascii true false false false false true true false)
+              (String.String (Ascii.Ascii true true false false true true true false)
+                 (String.String (Ascii.Ascii true false true false false true true false)
+                    (String.String (Ascii.Ascii true true true false false false true false)
+                       (String.String (Ascii.Ascii false true false false true true true false)
+                          (String.String (Ascii.Ascii true false false true false true true false)
+                             (String.String (Ascii.Ascii false false true false false true true false)
+                                (String.String (Ascii.Ascii false true false false true true false false)
+                                   (String.String (Ascii.Ascii false false true false false false true false)
+                                      (String.String (Ascii.Ascii false true true true false true false false)
+                                         (String.String (Ascii.Ascii false true false true true true true false)
+                                            (String.String (Ascii.Ascii true false false false false true true false)
+                                               (String.String (Ascii.Ascii false false false true true true true false)
+                                                  (String.String
+                                                     (Ascii.Ascii true false false true false true true false)
+                                                     (String.String
+                                                        (Ascii.Ascii true true false false true true true false)
+                                                        String.EmptyString))))))))))))))), (
+         0%Z, 0%Z, 0%Z));
+        (String.String (Ascii.Ascii false true false false false false true false)
+           (String.String (Ascii.Ascii true false false false false true true false)
+              (String.String (Ascii.Ascii true true false false true true true false)
+                 (String.String (Ascii.Ascii true false true false false true true false)
+                    (String.String (Ascii.Ascii true true true false false false true false)
+                       (String.String (Ascii.Ascii false true false false true true true false)
+                          (String.String (Ascii.Ascii true false false true false true true false)
+                             (String.String (Ascii.Ascii false false true false false true true false)
+                                (String.String (Ascii.Ascii false true false false true true false false)
+                                   (String.String (Ascii.Ascii false false true false false false true false)
+                                      (String.String (Ascii.Ascii false true true true false true false false)
+                                         (String.String (Ascii.Ascii false false false true true true true false)
+                                            (String.String (Ascii.Ascii true false false false false true true false)
+                                               (String.String (Ascii.Ascii false false false true true true true false)
+                                                  (String.String
+                                                     (Ascii.Ascii true false false true false true true false)
+                                                     (String.String
+                                                        (Ascii.Ascii true true false false true true true false)
+                                                        String.EmptyString))))))))))))))), (
+         1%Z, 1%Z, 1%Z))] /\
+       ApiGen.axis_index_3d =
+       [(String.String (Ascii.Ascii false true false false false false true false)
+           (String.String (Ascii.Ascii true false false false false true true false)
+              (String.String (Ascii.Ascii true true false false true true true false)
+                 (String.String (Ascii.Ascii true false true false false true true false)
+                    (String.String (Ascii.Ascii true true true false false false true false)
+                       (String.String (Ascii.Ascii false true false false true true true false)
+                          (String.String (Ascii.Ascii true false false true false true true false)
+                             (String.String (Ascii.Ascii false false true false false true true false)
+                                (String.String (Ascii.Ascii true true false false true true false false)
+                                   (String.String (Ascii.Ascii false false true false false false true false)
+                                      (String.String (Ascii.Ascii false true true true false true false false)
+                                         (String.String (Ascii.Ascii false true false true true true true false)
+                                            (String.String (Ascii.Ascii true false false false false true true false)
+                                               (String.String (Ascii.Ascii false false false true true true true false)
+                                                  (String.String
+                                                     (Ascii.Ascii true false false true false true true false)
+                                                     (String.String
+                                                        (Ascii.Ascii true true false false true true true false)
+                                                        String.EmptyString))))))))))))))), (
+         0%Z, 0%Z, 0%Z));
+        (String.String (Ascii.Ascii false true false false false false true false)
+           (String.String (Ascii.Ascii true false false false false true true false)
+              (String.String (Ascii.Ascii true true false false true true true false)
+                 (String.String (Ascii.Ascii true false true false false true true false)
+                    (String.String (Ascii.Ascii true true true false false false true false)
+                       (String.String (Ascii.Ascii false true false false true true true false)
+                          (String.String (Ascii.Ascii true false false true false true true false)
+                             (String.String (Ascii.Ascii false false true false false true true false)
+                                (String.String (Ascii.Ascii true true false false true true false false)
+                                   (String.String (Ascii.Ascii false false true false false false true false)
+                                      (String.String (Ascii.Ascii false true true true false true false false)
+                                         (String.String (Ascii.Ascii false false false true true true true false)
+                                            (String.String (Ascii.Ascii true false false false false true true false)
+                                               (String.String (Ascii.Ascii false false false true true true true false)
+                                                  (String.String
+                                                     (Ascii.Ascii true false false true false true true false)
+                                                     (String.String
+                                                        (Ascii.Ascii true true false false true true true false)
+                                                        String.EmptyString))))))))))))))), (
+         1%Z, 1%Z, 1%Z));
+        (String.String (Ascii.Ascii false true false false false false true false)
+           (String.String (Ascii.Ascii true false false false false true true false)
+              (String.String (Ascii.Ascii true true false false true true true false)
+                 (String.String (Ascii.Ascii true false true false false true true false)
+                    (String.String (Ascii.Ascii true true true false false false true false)
+                       (String.String (Ascii.Ascii false true false false true true true false)
+                          (String.String (Ascii.Ascii true false false true false true true false)
+                             (String.String (Ascii.Ascii false false true false false true true false)
+                                (String.String (Ascii.Ascii true true false false true true false false)
+                                   (String.String (Ascii.Ascii false false true false false false true false)
+                                      (String.String (Ascii.Ascii false true true true false true false false)
+                                         (String.String (Ascii.Ascii true false false true true true true false)
+                                            (String.String (Ascii.Ascii true false false false false true true false)
+                                               (String.String (Ascii.Ascii false false false true true true true false)
+                                                  (String.String
+                                                     (Ascii.Ascii true false false true false true true false)
+                                                     (String.String
+                                                        (Ascii.Ascii true true false false true true true false)
+                                                        String.EmptyString))))))))))))))), (
+         2%Z, 2%Z, 2%Z))].
+Proof. exact @ApiGenEq.gen_axis_index. Qed.
+
 (* non-vacuity: a concrete ascending axis with two nodes *)
 Example C14_axis_inhabited : SSR.axis (mkarr [2%Z] [0; 1]) 2.
 Proof. repeat split; try reflexivity; try (compute; discriminate). intros i j [[Hi Hij] Hj]. assert (i = 0%Z) by lia. assert (j = 1%Z) by lia. subst. unfold get; simpl. lra. Qed.
@@ -231,3 +707,10 @@ Print Assumptions C14_interp3d_multilinear_exact.
 Print Assumptions C14_interp3d_continuous_faces.
 Print Assumptions C14_interp3d_axis_swap_xy.
 Print Assumptions C14_interp3d_axis_swap_yz.
+Print Assumptions C14_grid_axes_are_origin_plus_index_times_spacing_2d_z.
+Print Assumptions C14_grid_axes_2d_x.
+Print Assumptions C14_grid_axes_3d_z.
+Print Assumptions C14_grid_axes_3d_x.
+Print Assumptions C14_grid_axes_3d_y.
+Print Assumptions C14_grid_axes_read_stored_attributes.
+Print Assumptions C14_grid_axis_component_index.
